@@ -135,6 +135,19 @@ package aucoalesce
 // lookup holds the mutex for the whole lookup (including the call of lookupFn, by
 // design) and releases it on every return; the map is only read and written while
 // it is held (guarded_by above).
+// Each cache owns its maps: the constructors allocate the four maps themselves
+// (two per cache), so a user cache and a group cache - or two caches of the same
+// kind - never share entries.
+//@ func aucoalesce.NewUserCache
+//@ modifies alloc
+//@ ensures[C15] result0 != nil && fresh(result0) && result0.byID.data != nil && result0.byName.data != nil && fresh(result0.byID.data) && fresh(result0.byName.data) && result0.byID.data != result0.byName.data
+//@ ensures[C15] "0" in result0.byID.data && result0.byID.data["0"].value == "root" && "root" in result0.byName.data && result0.byName.data["root"].value == "0"
+//@ ensures[C15] result0.byID.lookupFn != nil && result0.byName.lookupFn != nil
+//@ func aucoalesce.NewGroupCache
+//@ modifies alloc
+//@ ensures[C15] result0 != nil && fresh(result0) && result0.byID.data != nil && result0.byName.data != nil && fresh(result0.byID.data) && fresh(result0.byName.data) && result0.byID.data != result0.byName.data
+//@ ensures[C15] "0" in result0.byID.data && result0.byID.data["0"].value == "root" && "root" in result0.byName.data && result0.byName.data["root"].value == "0"
+//@ ensures[C15] result0.byID.lookupFn != nil && result0.byName.lookupFn != nil
 //@ func (*aucoalesce.stringCache).lookup
 //@ requires c != nil && c.data != nil && c.lookupFn != nil && !held(c.mutex)
 //@ ensures[C15] !held(c.mutex)
